@@ -173,6 +173,22 @@ Proof. rewrite go_index_in; [reflexivity|]. unfold go_len. cbn [List.length]. li
 Lemma go_index_nil {A} (i : Z) : go_index (@nil A) i = None.
 Proof. apply go_index_out. unfold go_len. cbn [List.length]. lia. Qed.
 
+(* ---- strings.Replace(s, old, new, -1) with a one-byte old ---- *)
+Fixpoint go_replace_char (c : N) (new s : bstr) : bstr :=
+  match s with
+  | [] => []
+  | x :: r => (if x =? c then new else [x]) ++ go_replace_char c new r
+  end.
+
+Lemma go_replace_byte (c : N) (new s : bstr) (n : nat) :
+  (length s <= n)%nat -> go_replace_from n [c] new s = go_replace_char c new s.
+Proof.
+  revert s; induction n as [|n IH]; intros [|x r] H; cbn [length] in H; try lia; try reflexivity.
+  cbn [go_replace_from go_replace_char is_prefix length drop].
+  rewrite andb_true_r, (N.eqb_sym c x). rewrite !IH by (cbn [length]; lia).
+  destruct (x =? c); reflexivity.
+Qed.
+
 (* ---- wraps ---- *)
 Lemma go_wrap_s_id (bits x : Z) :
   (0 < bits)%Z -> (- 2 ^ (bits - 1) <= x < 2 ^ (bits - 1))%Z -> go_wrap_s bits x = x.
